@@ -143,12 +143,42 @@ def problems_of(kind, obj, ports):
     return entry_problems(obj, ports) if kind == "form" else wf_problems(obj, ports)
 
 
-def make_model_cell(arch):
+def _sem_for(m):
+    from osaca.semantics import ArchSemantics
+    s = ArchSemantics.__new__(ArchSemantics)
+    s._machine_model = m
+    s._isa = (m._data.get("isa") or "x86").lower()
+    return s
+
+
+def _balance_ok(sem, m, form, ports):
+    """The CLI's costing path for a matched form: uniform pressure as _handle_instruction_found
+    assigns it, then the two balancing passes - must not raise and must keep the totals sane."""
+    import copy
+    from vp.synth import iform
+    if not ports:
+        return True
+    pp = form.port_pressure
+    k = iform(1, lat=form.latency or 0.0, tp=form.throughput if form.throughput else 1.0)
+    k.port_uops = copy.deepcopy(pp)
+    k.port_pressure = m.average_port_pressure(pp)
+    other = iform(2, lat=1.0, tp=1.0)
+    other.port_uops = [[1, [ports[0]]]]
+    other.port_pressure = m.average_port_pressure(other.port_uops)
+    kernel = [k, other]
+    sem.assign_optimal_throughput(kernel)
+    sem.assign_optimal_throughput(kernel)
+    tot = sem.get_throughput_sum(kernel)
+    return len(tot) == len(ports) and all(x >= -1e-9 for x in tot) and isinstance(k.port_uops, list)
+
+
+def make_model_cell(arch, balance_all=False):
     def run(budget):
         import z3
         from vp import api
         ents, ports = entries(arch)
         m = load(arch)
+        sem = _sem_for(m)
         idx = z3.Int("entry")
         facts = []
         cost_failures = []
@@ -173,6 +203,8 @@ def make_model_cell(arch):
                         vec = m.average_port_pressure(pp, option=a) if a is not None else m.average_port_pressure(pp)
                         if len(vec) != len(ports):
                             cost_failures.append(i)
+                    if kind == "form" and pp is not None and (balance_all or isinstance(pp, dict)) and not _balance_ok(sem, m, obj, ports):
+                        cost_failures.append(i)
                 except Exception:   # noqa
                     cost_failures.append(i)
         for i in cost_failures:
@@ -206,6 +238,11 @@ def replay_entry(arch, name, k):
             pp = obj.port_pressure if kind == "form" else obj
             if pp is not None:
                 m.average_port_pressure(pp)
+                if kind == "form":
+                    try:
+                        return _balance_ok(_sem_for(m), m, obj, ports)
+                    except Exception:   # noqa
+                        return False
             return True
     return True
 
@@ -256,12 +293,14 @@ CELLS = {
 }
 for _a in ARCHS + ISAS:
     CELLS["model_" + _a.replace("/", "_")] = {"kind": "smt", "fn": make_model_cell(_a), "replay": replay_entry,
-                                             "bound": "all instruction forms, alternatives, load/store tables and defaults of %s.yml as loaded by the real loader" % _a,
+                                             "bound": "all instruction forms, alternatives, load/store tables and defaults of %s.yml as loaded by the real loader; every well-formed form is costed (average_port_pressure); forms with alternative port assignments are also balanced (assign_optimal_throughput x2 next to a second instruction)" % _a,
                                              "budget": {"quick": 170, "thorough": 300}}
+    CELLS["balance_" + _a.replace("/", "_")] = {"kind": "smt", "fn": make_model_cell(_a, balance_all=True), "replay": replay_entry, "tiers": ("thorough",),
+                                               "bound": "as model_%s, and EVERY well-formed form is run through the two balancing passes" % _a, "budget": {"thorough": 900}}
 
 META = {
     "functions": ["MachineModel.__init__ (YAML -> internal tables, alias expansion)", "MachineModel.average_port_pressure", "db_interface.sanity_check / _check_sanity_arch_db / _get_sanity_report"],
     "bounds": "every non-empty shipped model (%d micro-architectures, %d ISA databases) - about 18k entries; emptied bdw/csx/skx are skipped as the property says" % (len(ARCHS), len(ISAS)),
-    "outside": "the CLI path costing one synthesised instruction per entry (instruction synthesiser + matcher per entry; the matcher is C07)",
+    "outside": "synthesising and matching one instruction per entry through the parser (the matcher is C07); the costing/balancing of each form is executed directly on the loaded entry",
     "assumptions": ["ground-table search: the solver decides over a concrete table, which is equivalent to a scan", "well-formedness predicate written from the statement in harness/c15_models.py"],
 }
